@@ -41,7 +41,7 @@
 use grin_chain::types::{Options, Tip};
 use grin_chain::{Chain, Error as ChainError};
 use grin_core::core::block::Error as BlockError;
-use grin_core::core::transaction::Error as TxError;
+use grin_core::core::transaction::{self, Error as TxError};
 use grin_core::core::hash::{Hash, Hashed};
 use grin_core::core::{
 	Block, BlockHeader, BlockSums, Inputs, KernelFeatures, OutputIdentifier, Transaction, Weighting,
@@ -803,7 +803,23 @@ impl<'a> Sim<'a> {
 			}
 			TxSpec::Locked(lock) => {
 				let coin = self.pick_coin(parent, h, &[])?;
-				Some(vec![self.tx_one(&coin, height_locked(FEE, *lock), FEE, false)])
+				let mut txs = vec![self.tx_one(&coin, height_locked(FEE, *lock), FEE, false)];
+				// company in the same block (the rule is per kernel, whatever else the block carries and in
+				// whatever order the kernels sort): a kernel whose lock is long past and, where the kernel
+				// variant is allowed, a no-recent-duplicate kernel with an excess of its own
+				if self.prng.below(4) != 0 {
+					if let Some(c2) = self.pick_coin(parent, h, &[coin.commit]) {
+						txs.push(self.tx_one(&c2, height_locked(FEE, 1), FEE, false));
+						self.run.count("lock_decision_blocks_with_a_second_locked_kernel", 1);
+						if h >= NRD_FIRST_HEIGHT {
+							if let Some(c3) = self.pick_coin(parent, h, &[coin.commit, c2.commit]) {
+								txs.push(self.tx_one(&c3, nrd(FEE, 1), FEE, false));
+								self.run.count("lock_decision_blocks_with_an_nrd_kernel", 1);
+							}
+						}
+					}
+				}
+				Some(txs)
 			}
 			TxSpec::Nrd(rel) => {
 				let coin = self.pick_coin(parent, h, &[])?;
@@ -1573,10 +1589,23 @@ impl<'a> Sim<'a> {
 			let lock = (next as i64 - off as i64) as u64;
 			let tx = self.tx_one(&coin, height_locked(FEE, lock), FEE, false);
 			self.pool_try(
-				tx,
+				tx.clone(),
 				Label { rule: "lock", class, off },
 				&format!("lock_height {}", lock),
 			);
+			// the same kernel inside an aggregate with a kernel whose lock is long past (a transaction is
+			// locked until its LATEST lock height, wherever that kernel sorts)
+			if let Some(c2) = self.pick_coin(&head, next, &[coin.commit]) {
+				let other = self.tx_one(&c2, height_locked(FEE, 1), FEE, false);
+				if let Ok(agg) = transaction::aggregate(&[tx, other]) {
+					self.run.count("pool_lock_decisions_on_two_kernel_aggregates", 1);
+					self.pool_try(
+						agg,
+						Label { rule: "lock", class, off },
+						&format!("aggregate of lock_height {} and lock_height 1", lock),
+					);
+				}
+			}
 		}
 	}
 
